@@ -15,4 +15,40 @@ CLAIMS = {
         "note": "Trusted: Lean kernel; mirror fidelity is what the differential checks. Multi-proof totality theorems are added as the multi-proof mirror lands.",
         "technique": "Lean 4 theorem (no panic site reachable) + differential under catch_unwind on malformed inputs",
     },
+    "C01": {
+        "text": "Sequential key-value model (sorted association list, Lean) with kernel-checked read-after-write laws (T1.1a/b, for all maps, keys and values); the real store is driven through generated multi-commit histories (thousands of keys, values 0..70 KiB straddling the in-leaf / overflow boundaries, reopen, rollback, overlays) and every Nomt::read / Session::read is compared with a BTreeMap oracle (bytes) and with the Lean model (value hashes).",
+        "design_ref": "§4 C01",
+        "note": "Trusted: Lean kernel; the B-tree update algorithm is not modelled (specification-level model + differential); generator quality bounds the tie. T1.2/T1.3/T1.4-T1.6 (history law, overflow arithmetic, image decoder) are stretch items.",
+        "technique": "Lean 4 theorems on the sequential map model + API-history differential of the real store against the compiled Lean model and a BTreeMap oracle",
+    },
+    "C02": {
+        "text": "T2.1: the Lean mirror of core build_trie equals the specified trie root nodeAt for every canonically arranged key list (proved by a block induction, unbounded); T2.1b sorted => canonical; T2.2 empty/single; T2.4 root injective under Hasher.Sound; T2.6 compaction-table law. Every root the real store reports in generated histories is compared with the executed Lean specification nodeAt over Blake3 implemented in Lean.",
+        "design_ref": "§4 C02",
+        "note": "Trusted: Lean kernel; Hasher.Sound for Blake3; page_walker / workers are not modelled — tied by the root differential on every commit, overlay and reopen.",
+        "technique": "Lean 4 theorem (build_trie mirror = specification, induction) + root differential against the executed Lean specification",
+    },
+    "C05": {
+        "text": "T5.1 completeness and T5.2 truthfulness of the specified path proof proveSpec for every canonical set and every key (present/absent, any divergence depth), kernel-checked; Session::prove of the real store must return exactly proveSpec's terminal and siblings (byte-for-byte) for generated query keys on plain and overlay sessions, cold and warm, and verify + confirm with the real verifier.",
+        "design_ref": "§4 C05",
+        "note": "Trusted: Lean kernel; Hasher.Sound; seek / bitbox probing not modelled (tied by proof equality); T5.3/T5.5 are stretch.",
+        "technique": "Lean 4 theorem (specified proof verifies and is truthful, for all sets and keys) + exact proof-object differential",
+    },
+    "C09": {
+        "text": "T9.1-T9.3 over the commit/rollback protocol model: in every reachable state (invariant: the log is a chain of actual commits ending in the current values) rollback n restores exactly the values before the last n commits, keeps the older log, and a request that cannot be served fails without changing anything; undo of any chain restores its start. The real store runs histories with log limits 1,2,3,5, rollbacks of 0..len+1, reopen and stale commits in between; every result, root, value and later rollback is compared with the Lean api model and a stack-of-maps oracle.",
+        "design_ref": "§4 C09/C12",
+        "note": "Trusted: Lean kernel; theorems are on the list-of-records abstraction (no segments); seglog segment roll-over not yet reachable in quick runs (needs hook H2).",
+        "technique": "Lean 4 theorem (invariant + induction over the delta chain) + API-history differential with tiny rollback-log limits",
+    },
+    "C11": {
+        "text": "Overlay-chain semantics of the API model (youngest change wins, fall-through to the committed state, acceptance rule of LiveOverlay::new) as kernel-checked lemmas T11.1-T11.2; overlay trees on the real store (chains, forks, dropped/committed ancestors, wrong ancestor lists, in/out-of-order commits) compared step by step with the Lean api model and with per-overlay expected views.",
+        "design_ref": "§4 C11",
+        "note": "Trusted: Lean kernel; T11.3 (chain commit = direct commit, refinement) is being added; Index/prune_below not mirrored (spec-level chain lookup + differential).",
+        "technique": "Lean 4 lemmas on the overlay-chain model + overlay-tree history differential",
+    },
+    "C12": {
+        "text": "T12.1/T12.2: a stale blocking commit and a non-blocking commit that is deferred or stale leave the whole abstract state (values, root, rollback log, seqn) unchanged — proved for the repaired order of effects; F1 witness theorem shows the unrepaired order is not a no-op. The real store is driven through competing changesets in every order/flavour with rollbacks in between.",
+        "design_ref": "§4 C09/C12",
+        "note": "Trusted: Lean kernel; protocol model hand-written, tied by the differential (results, root, seqn, values, later rollbacks).",
+        "technique": "Lean 4 theorem (rejected/deferred commit = identity on the state) + competing-changeset history differential",
+    },
 }
